@@ -105,11 +105,13 @@ func histreplayMain(args []string) int {
 	fs := flag.NewFlagSet("histreplay", flag.ExitOnError)
 	in := fs.String("in", "", "TLC log")
 	out := fs.String("out", "", "report")
+	stride := fs.Int("stride", 1, "replay every n-th history only")
 	fs.Parse(args)
 	rep := newReport("histreplay")
 	runtime.GOMAXPROCS(1)
 	runtime.LockOSThread()
 	var hists [][]string
+	nseen := 0
 	err := tlcVectorLines(*in, func(b []byte) {
 		var v struct {
 			H []string `json:"h"`
@@ -118,7 +120,10 @@ func histreplayMain(args []string) int {
 			fmt.Fprintln(os.Stderr, "bad history", err)
 			os.Exit(2)
 		}
-		hists = append(hists, v.H)
+		nseen++
+		if nseen%*stride == 0 {
+			hists = append(hists, v.H)
+		}
 	})
 	if err != nil || len(hists) == 0 {
 		fmt.Fprintln(os.Stderr, "no histories", err)
